@@ -12,7 +12,17 @@ def rule(name):
 
 def run_rule(engine, name):
     if name not in engine._rule_cache:
-        engine._rule_cache[name] = RULES[name](engine)
+        from ..frontend import AnalysisError
+        from ..report import RuleResult
+        try:
+            engine._rule_cache[name] = RULES[name](engine)
+        except AnalysisError as e:
+            # a rule that cannot find what it reads is undecided (the property then fails closed, exit 2) — the other
+            # rules of the property still run and report what they find
+            r = RuleResult(name, "(the rule could not be evaluated)")
+            r.undecided.append(str(e))
+            r.instances, r.floor = 0, 0
+            engine._rule_cache[name] = r
     return engine._rule_cache[name]
 
 
